@@ -84,6 +84,14 @@ pub struct Scn {
     pub threads: Vec<Vec<LOp>>,
     /// "C03" or "C15": which property's invariants are attributed
     pub prop: String,
+    /// version 0 is written as a YAML file and loaded through
+    /// `load_config_file` with custom appender / filter kinds (lossy path)
+    #[serde(default)]
+    pub file_v0: bool,
+    /// (file_v0) these appenders are rendered with an unknown kind: lossy
+    /// loading must drop them and every reference to them, nothing else
+    #[serde(default)]
+    pub broken: Vec<usize>,
     pub sched_seed: u64,
     pub policy: kernel::Policy,
 }
@@ -557,8 +565,9 @@ pub fn gen_cfg(rng: &mut Rng, nconf: u32, prop: &str, _version: u32) -> CfgSpec 
         let filters = (0..nf)
             .map(|_| if rng.chance(3, 4) { FilterSpec::Script { seed: rng.next_u64() } } else { FilterSpec::Threshold { level: rng.range(0, 5) as u8 } })
             .collect();
-        let reenter = if prop == "C15" && rng.chance(1, 4) {
-            if rng.chance(2, 3) {
+        let reenter = if (prop == "C15" || prop == "C02") && rng.chance(1, 4) {
+            // C02 quantifies over *sequences* of reconfigurations: only nested logging there
+            if prop == "C15" && rng.chance(2, 3) {
                 Some(Reenter::SetConfig { v: rng.below(nconf as u64) as u32, sel: rng.next_u64() })
             } else {
                 Some(Reenter::Log { target: rng.pick(&TARGETS).to_string(), level: rng.range(1, 5) as u8, sel: rng.next_u64() })
@@ -624,7 +633,115 @@ pub fn generate(rng: &mut Rng, tier: Tier, prop: &str) -> Scn {
             ]);
         }
     }
-    Scn { configs, threads, prop: prop.to_string(), sched_seed: rng.next_u64(), policy: common::gen_policy(rng) }
+    Scn { configs, threads, prop: prop.to_string(), file_v0: false, broken: vec![], sched_seed: rng.next_u64(), policy: common::gen_policy(rng) }
+}
+
+/// C03 through a configuration file: same space, version 0 rendered as YAML,
+/// some appenders broken (unknown kind) while carrying valid filters.
+pub fn generate_file(rng: &mut Rng, tier: Tier) -> Scn {
+    let mut s = generate(rng, tier, "C03");
+    s.file_v0 = true;
+    let n = s.configs[0].appenders.len();
+    for i in 0..n {
+        if n > 1 && rng.chance(1, 3) && s.broken.len() + 1 < n {
+            s.broken.push(i);
+        }
+    }
+    s
+}
+
+const LEVEL_NAMES: [&str; 6] = ["off", "error", "warn", "info", "debug", "trace"];
+
+pub fn render_yaml(cfg: &CfgSpec, broken: &[usize]) -> String {
+    let mut s = String::from("appenders:\n");
+    for (i, a) in cfg.appenders.iter().enumerate() {
+        s.push_str(&format!("  a{}:\n", i));
+        if broken.contains(&i) {
+            s.push_str("    kind: nosuchkind\n");
+        } else {
+            s.push_str(&format!("    kind: cap\n    idx: {}\n", i));
+        }
+        if !a.filters.is_empty() {
+            s.push_str("    filters:\n");
+            for (fi, f) in a.filters.iter().enumerate() {
+                match f {
+                    FilterSpec::Threshold { level } => s.push_str(&format!("      - kind: threshold\n        level: {}\n", LEVEL_NAMES[*level as usize])),
+                    FilterSpec::Script { seed } => s.push_str(&format!("      - kind: script\n        app: {}\n        idx: {}\n        seed: {}\n", i, fi, seed)),
+                }
+            }
+        }
+    }
+    s.push_str(&format!("root:\n  level: {}\n  appenders: [{}]\n", LEVEL_NAMES[cfg.root_level as usize], cfg.root_appenders.iter().map(|i| format!("a{}", i)).collect::<Vec<_>>().join(", ")));
+    if !cfg.loggers.is_empty() {
+        s.push_str("loggers:\n");
+        for l in &cfg.loggers {
+            s.push_str(&format!("  \"{}\":\n    level: {}\n    additive: {}\n    appenders: [{}]\n", l.name, LEVEL_NAMES[l.level as usize], l.additive, l.appenders.iter().map(|i| format!("a{}", i)).collect::<Vec<_>>().join(", ")));
+        }
+    }
+    s
+}
+
+/// What lossy loading must make of a document whose `broken` appenders cannot be built.
+pub fn effective(cfg: &CfgSpec, broken: &[usize]) -> CfgSpec {
+    let mut c = cfg.clone();
+    c.root_appenders.retain(|i| !broken.contains(i));
+    for l in &mut c.loggers {
+        l.appenders.retain(|i| !broken.contains(i));
+    }
+    c
+}
+
+#[derive(serde::Deserialize)]
+#[serde(deny_unknown_fields)]
+struct CapFileConfig {
+    idx: usize,
+}
+
+struct CapFileDeserializer {
+    sh: Arc<OnceLock<Arc<LShared>>>,
+    spec: CfgSpec,
+}
+
+impl log4rs::config::Deserialize for CapFileDeserializer {
+    type Trait = dyn Append;
+    type Config = CapFileConfig;
+    fn deserialize(&self, config: CapFileConfig, _: &log4rs::config::Deserializers) -> anyhow::Result<Box<dyn Append>> {
+        let sh = self.sh.get().expect("shared state").clone();
+        Ok(make_cap(0, config.idx, self.spec.appenders[config.idx].clone(), sh))
+    }
+}
+
+#[derive(serde::Deserialize)]
+#[serde(deny_unknown_fields)]
+struct ScriptFilterConfig {
+    app: usize,
+    idx: usize,
+    seed: u64,
+}
+
+struct ScriptFilterDeserializer {
+    sh: Arc<OnceLock<Arc<LShared>>>,
+}
+
+impl log4rs::config::Deserialize for ScriptFilterDeserializer {
+    type Trait = dyn Filter;
+    type Config = ScriptFilterConfig;
+    fn deserialize(&self, c: ScriptFilterConfig, _: &log4rs::config::Deserializers) -> anyhow::Result<Box<dyn Filter>> {
+        let sh = self.sh.get().expect("shared state").clone();
+        Ok(Box::new(ScriptFilter { version: 0, app: c.app, idx: c.idx, seed: c.seed, sh }))
+    }
+}
+
+/// Loads version 0 from a YAML file through the public lossy loader.
+fn load_v0_from_file(scn: &Scn, sh: &Arc<LShared>, dir: &std::path::Path) -> anyhow::Result<Config> {
+    let p = dir.join("log4rs.yaml");
+    std::fs::write(&p, render_yaml(&scn.configs[0], &scn.broken))?;
+    let cell = Arc::new(OnceLock::new());
+    let _ = cell.set(sh.clone());
+    let mut d = log4rs::config::Deserializers::default();
+    d.insert("cap", CapFileDeserializer { sh: cell.clone(), spec: scn.configs[0].clone() });
+    d.insert("script", ScriptFilterDeserializer { sh: cell });
+    log4rs::config::load_config_file(&p, d)
 }
 
 // ---------------------------------------------------------------- executor
@@ -632,12 +749,16 @@ pub fn generate(rng: &mut Rng, tier: Tier, prop: &str) -> Scn {
 pub fn execute(scn: &Scn, opts: &ExecOpts) -> Outcome {
     let mut out = Outcome::default();
     let sink = Arc::new(Sink::default());
+    let mut oracle_scn = scn.clone();
+    if scn.file_v0 {
+        oracle_scn.configs[0] = effective(&scn.configs[0], &scn.broken);
+    }
     let sh = Arc::new(LShared {
         obs: Mutex::new(vec![]),
         errors: Mutex::new(vec![]),
         handle: OnceLock::new(),
         logger: OnceLock::new(),
-        scn: scn.clone(),
+        scn: oracle_scn,
         sink: sink.clone(),
         ops: Mutex::new(vec![]),
         meta: Mutex::new(HashMap::new()),
@@ -651,8 +772,19 @@ pub fn execute(scn: &Scn, opts: &ExecOpts) -> Outcome {
     let sched = opts.sched.clone().unwrap_or(Sched::Prng { seed: scn.sched_seed, policy: scn.policy.clone() });
     let k = common::begin(RunCfg { sched, trace: opts.trace, start_ns: common::T0_NS, tz: None, faults: vec![], crash: None, rand_script: vec![], step_cap: 50_000 });
     let sh_err = sh.clone();
+    let scratch = if scn.file_v0 { Some(crate::fsutil::Scratch::new("lfile")) } else { None };
+    let config0 = match &scratch {
+        Some(sc) => match load_v0_from_file(scn, &sh, &sc.root) {
+            Ok(c) => c,
+            Err(e) => {
+                sink.fail("C03", "C03-E0", "load-failed", format!("lossy loading of a document with a broken appender failed altogether: {:#}", e));
+                build_config(&effective(&scn.configs[0], &scn.broken), 0, &sh)
+            }
+        },
+        None => build_config(&scn.configs[0], 0, &sh),
+    };
     let logger = Arc::new(log4rs::Logger::new_with_err_handler(
-        build_config(&scn.configs[0], 0, &sh),
+        config0,
         Box::new(move |e: &anyhow::Error| {
             kernel::point("err.handler");
             sh_err.errors.lock().unwrap().push(e.to_string());
@@ -743,6 +875,11 @@ pub fn shrink(s: &Scn) -> Vec<Scn> {
             c.threads[ti].remove(oi);
             out.push(c);
         }
+    }
+    for i in 0..s.broken.len() {
+        let mut c = s.clone();
+        c.broken.remove(i);
+        out.push(c);
     }
     for (ci, cfg) in s.configs.iter().enumerate() {
         for li in 0..cfg.loggers.len() {
